@@ -23,18 +23,18 @@ Definition LYDICT_MIN_SIZE : N := 1024.       (* dict.c:29 *)
 (* lydict_init(); [sz = 0] is the real starting size, other sizes are used by the driver to reach
    the resize code with few strings *)
 Definition lydict_init (sz : N) : res dict :=
-  lyht_new dval dvdef (if sz =? 0 then LYDICT_MIN_SIZE else sz) 1.
+  lyht_new dvdef (if sz =? 0 then LYDICT_MIN_SIZE else sz) 1.
 
 (* dict_insert() (dict.c:177-224) under lydict_insert(): code, returned string, dictionary *)
 Definition lydict_insert (d : dict) (s : bytes) : res (N * bytes * dict) :=
-  bind (insert dval dvdef dveq d true true (lyht_hash s) (s, 1)) (fun x =>
+  bind (insert dvdef dveq d true true (lyht_hash s) (s, 1)) (fun x =>
     let c := fst (fst x) in
     let i := snd (fst x) in
     let d1 := snd x in
     bind (rd (ht_recs d1) i) (fun r =>
       if c =? LY_ERR_EEXIST then
         (* match->refcount++ *)
-        bind (set_val dval d1 i (fst (r_val r), (snd (r_val r) + 1) mod U32)) (fun d2 =>
+        bind (set_val d1 i (fst (r_val r), (snd (r_val r) + 1) mod U32)) (fun d2 =>
           Ok (LY_ERR_SUCCESS, fst (r_val r), d2))
       else
         (* LY_SUCCESS: match->value = copy of the string *)
@@ -43,26 +43,26 @@ Definition lydict_insert (d : dict) (s : bytes) : res (N * bytes * dict) :=
 (* lydict_remove() (dict.c:122-175) *)
 Definition lydict_remove (d : dict) (s : bytes) : res (N * dict) :=
   let h := lyht_hash s in
-  bind (find_rec dval d (dveq false (s, 0)) h) (fun fr =>
+  bind (find_rec d (dveq false (s, 0)) h) (fun fr =>
     match fr with
     | None => Ok (LY_ERR_ENOTFOUND, d)
     | Some i =>
         bind (rd (ht_recs d) i) (fun r =>
           let c := (snd (r_val r) + U32 - 1) mod U32 in          (* match->refcount-- *)
-          bind (set_val dval d i (fst (r_val r), c)) (fun d1 =>
-            if c =? 0 then lyht_remove dval dvdef dveq d1 h (s, 0)
+          bind (set_val d i (fst (r_val r), c)) (fun d1 =>
+            if c =? 0 then lyht_remove dvdef dveq d1 h (s, 0)
             else Ok (LY_ERR_SUCCESS, d1)))
     end).
 
 (* dict_dup() (dict.c:268-293): the argument must be a pointer handed out by this dictionary; the
    lookup compares pointers, which on such pointers is equality of the strings *)
 Definition lydict_dup (d : dict) (s : bytes) : res (N * bytes * dict) :=
-  bind (find_rec dval d (dveq false (s, 0)) (lyht_hash s)) (fun fr =>
+  bind (find_rec d (dveq false (s, 0)) (lyht_hash s)) (fun fr =>
     match fr with
     | None => Ok (LY_ERR_ENOTFOUND, [], d)
     | Some i =>
         bind (rd (ht_recs d) i) (fun r =>
-        bind (set_val dval d i (fst (r_val r), (snd (r_val r) + 1) mod U32)) (fun d1 =>
+        bind (set_val d i (fst (r_val r), (snd (r_val r) + 1) mod U32)) (fun d1 =>
           Ok (LY_ERR_SUCCESS, fst (r_val r), d1)))
     end).
 
